@@ -693,7 +693,11 @@ func execMux(t *testing.T, plan *simkit.Plan) *simkit.Result {
 		if stop != simkit.StopCond {
 			h.reportStuck(stop)
 		}
-		h.finalChecks()
+		// Let everything still queued (window increments for the last reads)
+		// cross the carrier before the books are closed.
+		s.SetBudget(20000, 30*time.Second)
+		flushed := s.Loop(func() bool { return h.ab.idle() && h.ba.idle() }) == simkit.StopCond
+		h.finalChecks(flushed)
 		nontrivial = s.Counter("probe.stream_established") >= 2 && s.Counter("probe.link_fragments") > 10
 		fp = simkit.Digest(fmt.Sprint(s.Counter("probe.stream_established"), s.Counter("probe.eof"), s.Counter("probe.open_rejected")))
 		s.Finish()
@@ -876,7 +880,7 @@ func (h *harness) reportStuck(stop simkit.Stop) {
 
 // finalChecks verifies completeness: every acknowledged byte reached a reader
 // that drained its side, unless a teardown or a local close explains the gap.
-func (h *harness) finalChecks() {
+func (h *harness) finalChecks(flushed bool) {
 	s := h.s
 	teardown := h.teardownExpected() || isClosed(h.A.mux.Closed()) || isClosed(h.B.mux.Closed())
 	h.mu.Lock()
@@ -912,6 +916,20 @@ func (h *harness) finalChecks() {
 			}
 			if rd.drained && !teardown {
 				s.Count("probe.stream_direction_complete", 1)
+			}
+			// Conservation of flow-control credit: the reader consumed every
+			// byte that was delivered, nothing is in flight in either direction,
+			// nobody closed the stream: every byte of window the writer spent
+			// has been handed back, so it holds exactly the window it was
+			// granted when the stream was established (a smaller one would
+			// throttle or stall it for good; a larger one overruns the reader).
+			if flushed && !teardown && !writing && rd.drained && !rd.closeInvoked && !wr.closeInvoked && rd.readPos == wr.written && len(h.inflight) == 0 {
+				if credit, initial, known := h.mon.window(wn, id); known {
+					s.Count("probe.window_conservation_checked", 1)
+					if credit != initial {
+						s.Violate("C23", "window-credit-not-conserved", "final", "stream %d: side %s has read all %d bytes side %s wrote and the carrier is idle, yet %s holds a send window of %d bytes instead of the %d it was granted (flow-control credit lost or invented)", id, rn, rd.readPos, wn, wn, credit, initial)
+					}
+				}
 			}
 		}
 	}
